@@ -172,6 +172,10 @@ def rule_closed_forms(repo: Repo, rep: Report) -> None:
             rep.check(gtxt in want, "CLOSED-FORM", fi, f"shortcut `return {unparse(e)}` under `{gtxt}`", "identity shortcut (0 annihilates, 1 is neutral)", f"shortcut result `{unparse(e)}` is not justified by its guard (accepted: {want})", node=r)
             continue
         n_general += 1
+        mm = match(e, "FiniteBifieldElement(self.field, ((BinaryPolynomial(self.value) * BinaryPolynomial(other.value)) % _M).value)") or match(e, "self.field(((BinaryPolynomial(self.value) * BinaryPolynomial(other.value)) % _M).value)")
+        if mm is not None and unparse(mm["_M"]) != "self.field.modulus":
+            rep.violation("CLOSED-FORM", fi, f"GF(2^m) product: {unparse(e)}", f"the product is reduced modulo `{unparse(mm['_M'])}`, not modulo the field's validated modulus `self.field.modulus`", node=r)
+            continue
         check_expr(
             rep,
             "CLOSED-FORM",
